@@ -35,7 +35,7 @@ H2 = gen.schema(
 H3 = gen.schema(
     keytype='identifier', handler='hs',
     types=[gen.stype('ta', [gen.key('h1', handler='hk')], keytype='ipaddr-or-hostname')],
-    items=[gen.key('Ka', handler='ha'), gen.key('kb', handler='Hb'), gen.multisection('ta', '*', attr='xs', handler='hm')])
+    items=[gen.key('Ka', handler='ha'), gen.key('kb', handler='Hb'), gen.multisection('ta', '*', attr='xs', handler='hM')])
 # an intermediate section type WITHOUT any handler attribute whose sections contain handler-bearing items
 H4 = gen.schema(
     handler='hs', datatype=gen.WRAP,
@@ -212,6 +212,10 @@ class C16(P.TextMixin, Harness):
                            'none': [], 'extra': False, 'twice': True})
                 us.append({'schema': sid, 'text': ti, 'files': [['main.conf', t]], 'sym': [0, 1],
                            'none': [], 'extra': False, 'twice': True})
+                # the same handler OBJECT: a complete map first, then a map that lacks the last name - refused
+                # without calling anything, like on a fresh object
+                us.append({'schema': sid, 'text': ti, 'files': [['main.conf', t]], 'sym': [],
+                           'none': [], 'extra': False, 'twice': 'then-incomplete'})
         return us
 
     def inputs(self, eng, unit):
@@ -234,6 +238,8 @@ class C16(P.TextMixin, Harness):
             pairs.append((inp['mx'], 'extra'))
         if unit['extra'] == 2:
             pairs.append((inp['my'], 'extra2'))
+        if unit.get('twice') == 'then-incomplete':
+            pairs = pairs[:-1]          # what the SECOND call is given
         return pairs
 
     def observe(self, unit, inp):
@@ -255,7 +261,15 @@ class C16(P.TextMixin, Harness):
                 pairs.append((supplied, fn))
         mapping = Pairs(pairs)
         try:
-            if unit.get('twice'):
+            if unit.get('twice') == 'then-incomplete':
+                last = NAMES[unit['schema']][-1]
+                full = Pairs(pairs + [(last, (lambda v: calls.append((last, v))))])
+                try:
+                    handler(full)
+                except ZConfig.ConfigurationError:
+                    pass
+                del calls[:]
+            elif unit.get('twice'):
                 # the SAME mapping object used for an earlier, successful call, then changed in place
                 # at the same size: the first entry's callable is swapped for None and back
                 first = [(k, (None if i == 0 else v)) for i, (k, v) in enumerate(pairs)]
